@@ -166,9 +166,41 @@ func c16Call(env *core.Env, name string, n int, experimental bool, inTable bool,
 	if r.IsError() && errors.Is(r.Err, impl.ErrWrongArity) {
 		env.Violatef(fmt.Sprintf("C16/arity-error-after-accept/%s/%d", name, n), "`%s` [%s] was accepted by Compile but evaluation fails with an arity complaint: %v", src, cfg, r.Err)
 	}
+	{
+		// the same call directly after another call that takes a criterion (two adjacent calls stay two calls)
+		if sp := specByName(name); sp != nil && sp.Recv == "%multi" && strings.HasPrefix(src, "%multi.") {
+			call := strings.TrimPrefix(src, "%multi.")
+			for _, pre := range []string{"%multi.where($this > 0)", "%multi.select($this)", "%multi.where(true).where(true)", "%multi.skip(0)", "%multi.exists($this > 0).select(%multi)"} {
+				rr := fx.Eval(env, pre+"."+call, in, co, eo)
+				env.Cover("accepted-after-criterion-call")
+				if rr.IsPanic() {
+					env.Violatef(fx.PanicSig("C16", rr), "`%s.%s` => %s", pre, call, rr.Short())
+				} else if rr.Kind == "cerror" {
+					env.Violatef(fmt.Sprintf("C16/compile-rejected-in-position/%s/%d", name, n), "`%s` [%s] compiles, but `%s.%s` does not: %s", src, cfg, pre, call, trunc(rr.Short(), 160))
+					break
+				} else if rr.Kind == "error" && errors.Is(rr.Err, impl.ErrWrongArity) {
+					env.Violatef(fmt.Sprintf("C16/arity-error-after-accept/%s/%d", name, n), "`%s.%s` [%s] was accepted by Compile but evaluation fails with an arity complaint: %v", pre, call, cfg, rr.Err)
+					break
+				}
+			}
+		}
+	}
 	// the same accepted call in other syntactic positions (right operand, indexer, argument, criterion, parentheses):
 	// whether a name resolves does not depend on where the call stands
 	if sp := specByName(name); !strings.Contains(src, "$") && (sp == nil || sp.Recv != "") {
+		if i := strings.Index(src, name+"("); i >= 0 {
+			for _, gap := range []string{" ", "\n", "\t", " /* c */ ", "/* c */", " // c\n", "  \n  "} {
+				gsrc := src[:i] + name + gap + "(" + src[i+len(name)+1:]
+				gex, gcr := fx.Compile(env, gsrc, co...)
+				env.Cover("accepted-with-gap-before-parenthesis")
+				if gcr.IsPanic() {
+					env.Violatef(fx.PanicSig("C16", gcr), "Compile(`%s`) => %s", gsrc, gcr.Short())
+				} else if gex == nil {
+					env.Violatef(fmt.Sprintf("C16/compile-rejected-with-gap/%s/%d", name, n), "`%s` [%s] compiles, but with %q between the name and the parenthesis it does not: %s", src, cfg, gap, trunc(gcr.Short(), 160))
+					break
+				}
+			}
+		}
 		for _, pos := range []string{"'x' & (%s).count().toString()", "1 = 1 and (%s).exists()", "(%s).exists() or false", "%%multi[(%s).count()]", "iif(true, %s)", "%%multi.where((%s).exists() or true)", "((%s))", "-1 + (%s).count()", "(%s).count() = (%s).count()"} {
 			psrc := strings.ReplaceAll(pos, "%s", src)
 			psrc = strings.ReplaceAll(psrc, "%%", "%")
